@@ -150,6 +150,22 @@ def dominating_facts(node):
     return facts
 
 
+def holds_order(facts, a, op, b):
+    """`a op b` (op one of < <= > >=) holds by the facts in any of its spellings: as written, with the operands exchanged, or as
+    the complementary comparison known to be false.  Only for operands that cannot be NaN (loop indices, levels, lengths)."""
+    flip = {'<': '>', '>': '<', '<=': '>=', '>=': '<='}
+    comp = {'<': '>=', '>': '<=', '<=': '>', '>=': '<'}
+    want = {('%s%s%s' % (a, op, b), True), ('%s%s%s' % (b, flip[op], a), True),
+            ('%s%s%s' % (a, comp[op], b), False), ('%s%s%s' % (b, flip[comp[op]], a), False)}
+    for (t, pol, _n) in facts:
+        t = t.replace(' ', '')
+        while t.startswith('(') and t.endswith(')'):
+            t = t[1:-1]
+        if (t, pol) in want:
+            return True
+    return False
+
+
 def has_literal(facts, text, polarity=True):
     return any(t == text and p == polarity for (t, p, _n) in facts)
 
